@@ -294,8 +294,8 @@ def allocateMiniSector (p : P) (value : Nat) : Outcome (P × Nat) := do
         else pure p
       else pure p
     let idx := p.miniFat.size
+    let p ← appendMiniSector p        -- the mini stream grows first (a failure must not leave the MiniFAT ahead)
     let p ← setMiniFat p idx value
-    let p ← appendMiniSector p
     pure (p, idx)
 
 /-- `next_mini_sector` -/
